@@ -61,7 +61,9 @@ def main(ctx):
     for b in data['twin']['bad']:
         ctx.violation('proxy differs from the local object: ' + b, 'twin:' + b.split(':')[0], replay=b)
     c = data['concurrent']
-    if not (c['len'] == c['distinct'] == c['dict'] == c['value'] == c['expected'] and c['per_client_order']):
+    if not (c['len'] == c['distinct'] == c['dict'] == c['value'] == c['expected'] and c['per_client_order']
+            and not c.get('crossed_replies') and not c.get('stuck')
+            and all(x == 0 for x in c.get('exitcodes', []))):
         ctx.violation('concurrent single operations were not atomic: %r' % c, 'observed:mgr:atomic', replay=c)
     if data['key'] != {'connect': 'refused', 'right_key': 'accepted'}:
         ctx.violation('authentication key not enforced: %r' % data['key'], 'observed:mgr:key', replay=data['key'])
